@@ -222,6 +222,7 @@ class Ctx:
         self.level = "proof"
         self._scratch: Path | None = None
         self.known = load_known_findings(prop)
+        shutil.rmtree(VERIF / "replays" / prop, ignore_errors=True)      # replays of earlier runs are stale
         self.deadline = self.t0 + float(os.environ.get("VERIF_DEADLINE_S", "1500" if tier == "quick" else "7000"))
 
     # ---- scratch space (outside /repo and /verif) ----
@@ -292,7 +293,7 @@ class Ctx:
                     pr.log += traceback.format_exc()
             targets = list(props) + gen_mods
             pr.modules = targets
-            cmd = ["lake", "build", "molli_driver"] + targets
+            cmd = ["lake", "build", "molli_driver", "Molli.Audit"] + targets
             pr.checker_cmd = f"cd {LEAN} && {' '.join(cmd)} && lake env lean <audit of {' '.join(targets)}>"
             try:
                 r = subprocess.run(cmd, cwd=LEAN, capture_output=True, text=True, timeout=3000)
@@ -332,22 +333,30 @@ class Ctx:
                     pr.fail("axiom audit timed out")
                 finally:
                     af.unlink(missing_ok=True)
-        pr.obligations = len(pr.theorems)
+        # obligations = the theorems written in the sources of the property / generated modules; theorems that Lean
+        # generates itself (equation lemmas, injectivity, sizeOf specs ...) are axiom-audited too but not counted
+        declared_names = []
+        for mod in targets:
+            p = lean_module_path(mod)
+            if p.exists():
+                declared_names += re.findall(r"^\s*(?:@\[[^\]]*\]\s*)?(?:protected\s+|private\s+)?theorem\s+([^\s:({\[]+)",
+                                             strip_lean_comments(p.read_text()), re.M)
+        user = {}
+        for th, axs in pr.theorems.items():
+            if any(th == d or th.endswith("." + d) for d in declared_names):
+                user[th] = axs
         for th, axs in pr.theorems.items():
             bad = [a for a in axs if a not in ALLOWED_AXIOMS]
             if bad:
                 pr.fail(f"theorem {th} depends on {bad}")
-            else:
+            elif th in user:
                 pr.discharged += 1
-        # theorems declared in the sources must all have been audited (a module that failed to build audits nothing)
-        declared = 0
-        for mod in targets:
-            p = lean_module_path(mod)
-            if p.exists():
-                declared += len(re.findall(r"^\s*(?:protected\s+|private\s+)?theorem\s", strip_lean_comments(p.read_text()), re.M))
-        if declared > pr.obligations:
-            pr.obligations = declared
-            pr.fail(f"{declared} theorems declared but only {len(pr.theorems)} checked")
+        pr.auto_generated = len(pr.theorems) - len(user)
+        pr.theorems = user
+        pr.obligations = len(user)
+        if len(declared_names) > pr.obligations:
+            pr.obligations = len(declared_names)
+            pr.fail(f"{len(declared_names)} theorems declared but only {len(user)} checked")
         if pr.obligations == 0:
             pr.fail("no theorem found in the property modules")
         return pr
